@@ -251,6 +251,18 @@ def boundary_float_texts(seed, quick):
                 add("%s%s%d" % (m, pe, e), "%s%s-%d" % (m, pe, e))
     for z in (10, 19, 20, 21, 40):
         add("1e" + "0" * z + "5", "1e-" + "0" * z + "5", "0x1p" + "0" * z + "5", "1e+" + "9" * z, "1e-" + "9" * z, "0x1p-" + "9" * z)
+    # the decimal shifter decides how many digits a multiplication by 2^k adds by comparing the digit prefix
+    # with 5^k: digit strings at, just below and just above every 5^k (k = 1..60), full and cut short by one
+    # or two digits, at magnitudes that need left shifts (point 1..40, 100, 300 places left of the digits)
+    for k in range(1, 61):
+        d = str(5 ** k)
+        forms = {d, d + "1", d[:-1] or "5", (d[:-1] + "4") if len(d) > 1 else "4", d[:-1] + str(max(0, int(d[-1]) - 1)),
+                 (d[:-2] or "1"), str(5 ** k - 1), str(5 ** k + 1), d + "000000001"}
+        exps = (1, 2, 5, 9, 10, 11, 17, 20, 27, 28, 40, 100, 300)
+        for f in sorted(forms):
+            for e in (rnd.sample(exps, 3) if quick else exps):
+                add("%s.%se-%d" % (f[0], f[1:], e) if len(f) > 1 else "%se-%d" % (f, e))
+            add("0." + "0" * (k % 7) + f)
     # hex mantissas of 14..17 digits (57..68 bits): every shifted-out bit is sticky.  The kept 53 bits end in
     # 0 (even), the next bit is 1 (looks like a tie) and some lower bit other than the last is set.
     for nd, low in ((14, 3), (15, 7), (16, 11), (17, 15)):
